@@ -2,69 +2,142 @@
 import re
 
 from .. import lib, mir
+from .. import lib_sw as S
 from ..mir import render
 
 EXPLANATION = ("The check_peer_id closure in Pool::poll is evaluated abstractly over all cells of (expected peer present?, expected != "
                "obtained?, local == obtained?, endpoint kind) and must equal the reference table (WrongPeerId / LocalPeerId outbound / "
                "LocalPeerId inbound / Ok); in Pool::poll the Err edge of the closure closes the muxer and returns without creating a "
-               "NewConnection or a ConnectionEstablished event; the closure compares the obtained id with the *stored* expected id and local id.")
+               "NewConnection or a ConnectionEstablished event; the closure compares the obtained id with the *stored* expected id and "
+               "local id; the stored expected id is the peer the dial was made for (add_outgoing stores its `peer` argument, which "
+               "Swarm::dial takes from the DialOpts).  Captured variables are identified by what they are bound to, not by name.")
 ASSUMPTIONS = ["PeerId equality is exact", "the obtained peer id is the one authenticated by the security upgrade (C16/C18/C19)"]
 SW = "libp2p_swarm"
 
 
+def _site_bb(body, agg_expr):
+    """block of the statement that builds (an aggregate containing) agg_expr"""
+    want = render(agg_expr)
+    for bi in sorted(body.live):
+        for st in body.blocks[bi]["stmts"]:
+            if st["k"] == "assign" and st["r"]["k"] == "agg" and want in render(body.rvalue_expr(st["r"])):
+                return bi
+    return 0
+
+
 def check(ctx):
     prog = ctx.prog
-    p = ctx.body(SW, r"pool::Pool::poll$")
+    F_PEND = S.role(prog, "pool.pending")
+    F_PEER = S.role(prog, "pending.peer")
+    F_LOCAL = S.role(prog, "pool.local_id")
+    p = S.nbody(ctx, r"pool::Pool::poll$")
     chk = None
     for c in prog.children(p):
         if c.kind == "closure" and c.agg_sites(r"connection::pool::PoolEvent$"):
             chk = c
     if chk is None:
         raise mir.RuleError("check_peer_id closure not found")
+    S.neutral(chk)
     ctx.use(chk)
-    res = [mir.Site(chk, x[1], x[2]) for x in chk.defs[0]]
-    ctx.floor("table", "result assignments in check_peer_id", res, 4)
-    atom_map = [(r"^discr\(\^expected_peer_id\)$", "expected"),
-                (r"^std::cmp::PartialEq::ne\(\^expected_peer_id@Some\.0, \^obtained_peer_id\)$", "expected_ne_obtained"),
-                (r"PartialEq>::eq\(\^\*self\.local_id, \^obtained_peer_id\)$", "local_eq_obtained"),
-                (r"^discr\(\^endpoint\)$", "endpoint")]
-
-    def value_of(s):
-        e = chk.site_expr(s)
-        r = render(e)
-        if r.startswith("std::result::Result::Ok{"):
-            return "Ok"
-        m = re.search(r"PoolEvent::(Pending\w+ConnectionError)\{.*?error: libp2p_swarm::connection::error::\w+::(\w+)\{", r)
-        if m:
-            return m.group(1) + "/" + m.group(2)
-        return "?" + r[:60]
-    domain = {"expected": ["Some", "None"], "expected_ne_obtained": ["true", "false"], "local_eq_obtained": ["true", "false"],
-              "endpoint": ["Dialer", "Listener"]}
-
-    def ref(a):
-        if a["expected"] == "Some" and a["expected_ne_obtained"] == "true":
-            if a["endpoint"] == "Dialer":
-                return "PendingOutboundConnectionError/WrongPeerId"
-            return set()  # inbound connections never carry an expected id: panics (unreachable!)
-        if a["local_eq_obtained"] == "true":
-            return "PendingOutboundConnectionError/LocalPeerId" if a["endpoint"] == "Dialer" else "PendingInboundConnectionError/LocalPeerId"
-        return "Ok"
-    lib.check_cells(ctx, "table", "check_peer_id", chk, res, value_of, atom_map, domain, ref, "%s:%d" % (chk.file, chk.line))
-    # upvars: expected_peer_id comes from the removed pending entry; obtained from the task event
-    call = p.call_sites(re.escape(mir.strip_generics(chk.path)) + "$")
-    ctx.floor("origin", "check_peer_id call", call, 1)
+    # ---- what the closure captures (roles by binding)
     aggs = [s for s in p.stmt_sites(lambda st: st["k"] == "assign" and st["r"]["k"] == "agg" and st["r"].get("def") == chk.path)]
     ctx.floor("origin", "closure construction", aggs, 1)
-    if aggs:
-        r = render(p.site_expr(aggs[0]))
-        ok1 = re.search(r"expect\(std::collections::HashMap::remove\(self\.pending, .*ConnectionEstablished\.id\), '[^']*'\)\.peer_id", r) is not None
-        ok2 = "ConnectionEstablished.output.0" in r
-        ctx.ob("origin", "expected id = removed PendingConnection.peer_id", ok1, aggs[0].loc(), "closure captures pending.remove(id).peer_id")
-        ctx.ob("origin", "obtained id = task event output.0", ok2, aggs[0].loc(), "closure captures the (peer_id, muxer) output of the pending task")
-    # Err edge: close + return, no NewConnection / Established
+    caps = p.site_expr(aggs[0])[2] if aggs else ()
+
+    def removed_entry(e):
+        return any(c[2] and render(c[2][0]) == "self." + F_PEND for c in mir.calls_in(e, r"HashMap::remove$"))
+    k_exp = [i for i, c in enumerate(caps) if c[0] == "field" and c[2] == F_PEER and removed_entry(c)]
+    k_obt = [i for i, c in enumerate(caps) if re.search(r"@ConnectionEstablished\.\w+\.0$", render(c)) and not removed_entry(c)]
+    k_loc = [i for i, c in enumerate(caps) if render(c) == "self." + F_LOCAL]
+    def candidates(c):
+        """the values a captured operand can have: definitions of a local / the matching component of a local tuple"""
+        if c[0] == "local":
+            return [x for _, x in S.defs_exprs(p, c[1])]
+        if c[0] == "field" and c[1][0] == "local":
+            out = []
+            for _, x in S.defs_exprs(p, c[1][1]):
+                if x[0] == "agg" and x[1] == "tuple":
+                    out += [v for f, v in x[4] if f == c[2]]
+                else:
+                    return []
+            return out
+        return [c]
+    cp_vals = {i: candidates(c) for i, c in enumerate(caps)}
+    k_ep = [i for i, vs in cp_vals.items() if vs and all(v[0] == "agg" and v[1] == "adt" and mir.strip_generics(v[2]).endswith("libp2p_core::ConnectedPoint") for v in vs)]
+    ok_roles = all(len(k) == 1 for k in (k_exp, k_obt, k_loc, k_ep))
+    ctx.ob("origin", "expected id = removed PendingConnection.peer_id", len(k_exp) == 1, aggs[0].loc() if aggs else "", "closure captures pending.remove(id).peer_id: %s" % [render(c)[-60:] for c in caps])
+    ctx.ob("origin", "obtained id = task event output.0", len(k_obt) == 1, aggs[0].loc() if aggs else "", "closure captures the (peer_id, muxer) output of the pending task")
+    ctx.ob("origin", "local id = the pool's own peer id", len(k_loc) == 1, aggs[0].loc() if aggs else "", "closure captures self.%s" % F_LOCAL)
+    ctx.ob("origin", "endpoint = the connected point built from the pending entry", len(k_ep) == 1, aggs[0].loc() if aggs else "", "closure captures the local ConnectedPoint")
+    if k_exp:
+        # the expected id and the id that keys the removal belong to the same task event
+        e = caps[k_exp[0]]
+        ctx.ob("origin", "expected id belongs to the entry of this connection id", re.search(r"@ConnectionEstablished\.id\)", render(e)) is not None, aggs[0].loc(), render(e)[-160:])
+    if k_ep:
+        # the endpoint the closure switches on is derived from the removed entry's endpoint, direction preserved
+        vs = cp_vals[k_ep[0]]
+        kinds = sorted(v[3] for v in vs)
+        ok = kinds == ["Dialer", "Listener"]
+        for v in vs:
+            gs = [ls for (t, ls, _, c) in p.guards_on_all_paths(_site_bb(p, v)) if c[0] == "discr" and c[1][0] == "field" and c[1][2] == S.role(prog, "pending.endpoint") and removed_entry(c)]
+            ok = ok and any(ls == frozenset([v[3]]) for ls in gs)
+        ctx.ob("origin", "connected point has the direction of the pending entry", ok, aggs[0].loc(), "ConnectedPoint variants built from the removed entry: %s" % kinds)
+    res = S.ret_sites(chk)
+    ctx.floor("table", "result assignments in check_peer_id", res, 4)
+    if ok_roles:
+        u = lambda k: r"\^\*?u%d" % k[0]
+        exp, obt, loc, ep = u(k_exp), u(k_obt), u(k_loc), u(k_ep)
+        atom_map = [(r"^discr\(%s\)$" % exp, "expected"),
+                    (r"^(std::cmp::PartialEq|<libp2p_core::PeerId as std::cmp::PartialEq>)::ne\((%s@Some\.0, %s|%s, %s@Some\.0)\)$" % (exp, obt, obt, exp), "expected_ne_obtained"),
+                    (r"PartialEq>::eq\((%s, %s|%s, %s)\)$" % (loc, obt, obt, loc), "local_eq_obtained"),
+                    (r"^discr\(%s\)$" % ep, "endpoint")]
+
+        def value_of(s):
+            e = chk.site_expr(s)
+            r = render(e)
+            if r.startswith("std::result::Result::Ok{"):
+                return "Ok"
+            m = re.search(r"PoolEvent::(Pending\w+ConnectionError)\{.*?error: libp2p_swarm::connection::error::\w+::(\w+)\{", r)
+            if m:
+                return m.group(1) + "/" + m.group(2)
+            return "?" + r[:60]
+        domain = {"expected": ["Some", "None"], "expected_ne_obtained": ["true", "false"], "local_eq_obtained": ["true", "false"],
+                  "endpoint": ["Dialer", "Listener"]}
+
+        def ref(a):
+            if a["expected"] == "Some" and a["expected_ne_obtained"] == "true":
+                if a["endpoint"] == "Dialer":
+                    return "PendingOutboundConnectionError/WrongPeerId"
+                return set()  # inbound connections never carry an expected id: panics (unreachable!)
+            if a["local_eq_obtained"] == "true":
+                return "PendingOutboundConnectionError/LocalPeerId" if a["endpoint"] == "Dialer" else "PendingInboundConnectionError/LocalPeerId"
+            return "Ok"
+        lib.check_cells(ctx, "table", "check_peer_id", chk, res, value_of, atom_map, domain, ref, "%s:%d" % (chk.file, chk.line))
+    # ---- the stored expected id is the peer the dial was made for
+    ao = S.nbody(ctx, r"pool::Pool::add_outgoing$")
+    i_peer = S.param_of_type(ao, r"^std::option::Option<libp2p_core::PeerId>$")
+    pcs = ao.agg_sites(r"pool::PendingConnection$")
+    ctx.floor("origin", "PendingConnection built in add_outgoing", pcs, 1)
+    for s in pcs:
+        v = dict(ao.site_expr(s)[4]).get(F_PEER)
+        ctx.ob("origin", "add_outgoing stores the peer the dial is for", v is not None and v[0] == "arg" and v[1] == i_peer, s.loc(),
+               "PendingConnection.%s = %s" % (F_PEER, render(v) if v is not None else None))
+    outer = prog.callers(SW, r"pool::Pool::add_outgoing$")
+    ctx.floor("origin", "callers of add_outgoing", outer, 1)
+    for o in outer:
+        oe = o.body.site_expr(o)
+        a = oe[2][i_peer - 1] if len(oe[2]) >= i_peer else ("unknown", "?")
+        ctx.ob("origin", "the peer handed to the pool is the dial's target", S.is_call(a, r"dial_opts::DialOpts::get_peer_id$"), o.loc(), render(a)[:120])
+    # inbound connections carry no expected id (the closure's Listener/WrongPeerId cell is unreachable)
+    ai = S.nbody(ctx, r"pool::Pool::add_incoming$")
+    for s in ai.agg_sites(r"pool::PendingConnection$"):
+        v = dict(ai.site_expr(s)[4]).get(F_PEER)
+        ctx.ob("origin", "add_incoming stores no expected peer", v is not None and render(v) == "std::option::Option::None{}", s.loc(), render(v) if v is not None else "")
+    # ---- Err edge: close + return, no NewConnection / Established
+    call = p.call_sites(re.escape(mir.strip_generics(chk.path)) + "$")
+    ctx.floor("origin", "check_peer_id call", call, 1)
     if call:
         err_edges = lib.switch_edges_on_site(p, call[0], {"Err"})
-        ok_edges = lib.switch_edges_on_site(p, call[0], {"Ok"})
         err_t = [t for _, t in err_edges]
         newc = lib.bbs(p.call_sites(r"pool::NewConnection::new$"))
         est = lib.bbs([s for s in p.agg_sites(r"connection::pool::PoolEvent$", "ConnectionEstablished")])
